@@ -189,7 +189,7 @@ pub fn check(st: &mut Stats, c: &C) {
                 Ok(d) => {
                     st.obs(Op::S_bin_de, &d);
                     if d.days() as i128 != denoted || !(MIN_DAY as i128..=MAX_DAY as i128).contains(&denoted) {
-                        st.fail("C01/raw-day-number/wire-integer-accepted-as-another-day", format!("integer {} (width code {}) accepted as day {} {:?}", denoted, w, d.days(), d.extract()));
+                        st.fail("C01/raw-day-number/accepts-out-of-range-wire-integer-as-another-day", format!("integer {} (width code {}) accepted as day {} {:?}", denoted, w, d.days(), d.extract()));
                     }
                 }
                 Err(_) => {
